@@ -1,4 +1,4 @@
-import RsddModel.Lemmas.TopDownSolver
+import RsddModel.Lemmas.TopDownNaive
 /-!
 # C06 — top-down CNF compilation to decision-DNNF
 
@@ -89,12 +89,12 @@ theorem compileTopdown_correct (spec : SolverSpec cnf S) (varAt : Nat → Nat)
 Unconditional correctness is false by pigeonhole (finitely many hash values, unboundedly many
 functions); the hypothesis is the explicit `H-coll`. -/
 theorem compileTopdown_correct_semantic_partial (spec : SolverSpec cnf S) (varAt : Nat → Nat)
-    (semHash : Ptr → Nat) (negH : Nat → Nat) (hcf : CollisionFree semHash negH)
+    {H : Type} [DecidableEq H] (semHash : Ptr → H) (negH key : H → H) (hcf : CollisionFree semHash negH key)
     (hhash : HashSound spec) (hfree : FreeDecide spec) (numVars : Nat) (hnew : NewSpec spec numVars)
     (hvarAt : ∀ v, InCnf cnf v → ∃ i, i < numVars ∧ varAt i = v) :
-    (∀ a, (compileTopdown S (semanticStore semHash negH) varAt cnf numVars []).1.eval a = cnfSat a cnf) ∧
-    (compileTopdown S (semanticStore semHash negH) varAt cnf numVars []).1.free ∧
-    ((compileTopdown S (semanticStore semHash negH) varAt cnf numVars []).1 = .fls ↔
+    (∀ a, (compileTopdown S (semanticStore semHash negH key) varAt cnf numVars []).1.eval a = cnfSat a cnf) ∧
+    (compileTopdown S (semanticStore semHash negH key) varAt cnf numVars []).1.free ∧
+    ((compileTopdown S (semanticStore semHash negH key) varAt cnf numVars []).1 = .fls ↔
       ∀ a, cnfSat a cnf = false) :=
   compileTopdown_correct_store spec (semanticStore_sound hcf) varAt hhash hfree numVars hnew hvarAt []
     (fun _ h => by cases h)
@@ -102,15 +102,15 @@ theorem compileTopdown_correct_semantic_partial (spec : SolverSpec cnf S) (varAt
 /-- `topdown_h` with the semantic store — PARTIAL: under `CollisionFree` (same statement as
 `topdownH_correct`, instantiated) -/
 theorem topdownH_correct_semantic_partial (spec : SolverSpec cnf S) (varAt : Nat → Nat)
-    (semHash : Ptr → Nat) (negH : Nat → Nat) (hcf : CollisionFree semHash negH)
+    {H : Type} [DecidableEq H] (semHash : Ptr → H) (negH key : H → H) (hcf : CollisionFree semHash negH key)
     (hhash : HashSound spec) (hfree : FreeDecide spec)
     (numVars : Nat) (hvarAt : ∀ v, InCnf cnf v → ∃ i, i < numVars ∧ varAt i = v)
-    (rem level : Nat) (s : S.σ) (cache : Cache S.κ) (t : List (Nat × Ptr)) (f0 : Frame S.κ)
+    (rem level : Nat) (s : S.σ) (cache : Cache S.κ) (t : List (H × Ptr)) (f0 : Frame S.κ)
     (rest : List (Frame S.κ))
     (hl : level + rem = numVars) (hI : spec.Inv s) (hfr : spec.frames s = f0 :: rest)
-    (hrest : rest ≠ []) (ht : SemInv semHash t)
+    (hrest : rest ≠ []) (ht : SemInv semHash key t)
     (hc : CacheOK spec cache) (hlev : ∀ i, i < level → spec.modelOf s (varAt i) ≠ none) :
-    let res := topdownH S (semanticStore semHash negH) varAt rem level s cache t
+    let res := topdownH S (semanticStore semHash negH key) varAt rem level s cache t
     (∀ a, Extends a (spec.modelOf s) → res.1.eval a = cnfSat a cnf) ∧ res.1.free ∧
     (∀ v ∈ res.1.vars, spec.modelOf s v = none) :=
   let h := topdownH_correct spec (semanticStore_sound hcf) varAt hhash hfree numVars hvarAt rem level s
@@ -178,6 +178,100 @@ theorem condOrig_wrong :
   intro a
   simp [notOr01, dnnfNode, Ptr.isNeg, Ptr.neg, Ptr.eval]
 
+/-! ## non-vacuity: the reference solver, an idealised semantic hash, executable runs -/
+
+/-- the executable reference solver `NaiveSolver` satisfies every hypothesis made on the solver,
+for every CNF -/
+theorem naiveSolver_satisfies (cnf : Cnf) (numVars : Nat) :
+    HashSound (naiveSpec cnf) ∧ FreeDecide (naiveSpec cnf) ∧ NewSpec (naiveSpec cnf) numVars :=
+  ⟨naive_hashSound cnf, naive_freeDecide cnf, naive_newSpec cnf numVars⟩
+
+/-- hence, with NO hypothesis: for every CNF the model compiler run with the reference solver
+(standard store, identity order) returns a free diagram denoting the CNF, the false constant
+iff the CNF is unsatisfiable -/
+theorem naiveCompile_correct (cnf : Cnf) :
+    (∀ a, (naiveCompile cnf).eval a = cnfSat a cnf) ∧ (naiveCompile cnf).free ∧
+    (naiveCompile cnf = .fls ↔ ∀ a, cnfSat a cnf = false) := TopDown.naiveCompile_correct cnf
+
+/-- the same for every order that enumerates the variables -/
+theorem naiveCompile_order_correct (cnf : Cnf) (varAt : Nat → Nat) (numVars : Nat)
+    (hvarAt : ∀ v, InCnf cnf v → ∃ i, i < numVars ∧ varAt i = v) :
+    (∀ a, (compileTopdown NaiveSolver standardStore varAt cnf numVars ()).1.eval a = cnfSat a cnf) ∧
+    (compileTopdown NaiveSolver standardStore varAt cnf numVars ()).1.free ∧
+    ((compileTopdown NaiveSolver standardStore varAt cnf numVars ()).1 = .fls ↔ ∀ a, cnfSat a cnf = false) :=
+  compileTopdown_correct (naiveSpec cnf) varAt (naive_hashSound cnf) (naive_freeDecide cnf) numVars
+    (naive_newSpec cnf numVars) hvarAt
+
+/-- an idealised collision-free "hash": the node itself, tagged; `negH` flips the tag -/
+def idealHash (p : Ptr) : Ptr × Bool := (p, false)
+def idealNeg (h : Ptr × Bool) : Ptr × Bool := (h.1, !h.2)
+
+theorem idealHash_collisionFree : CollisionFree idealHash idealNeg id := by
+  intro n m
+  constructor
+  · intro h
+    have : m = n := by simpa [idealHash] using h
+    rw [this]; exact Agrees.refl n
+  · intro h
+    simp [idealHash, idealNeg] at h
+
+/-- so `CollisionFree` is satisfiable, and with it the semantic-store theorem applies -/
+theorem naiveCompile_semantic_ideal (cnf : Cnf) :
+    let r := (compileTopdown NaiveSolver (semanticStore idealHash idealNeg) id cnf (cnfNumVars cnf) []).1
+    (∀ a, r.eval a = cnfSat a cnf) ∧ r.free ∧ (r = .fls ↔ ∀ a, cnfSat a cnf = false) :=
+  compileTopdown_correct_semantic_partial (naiveSpec cnf) id idealHash idealNeg id idealHash_collisionFree
+    (naive_hashSound cnf) (naive_freeDecide cnf) (cnfNumVars cnf) (naive_newSpec cnf _)
+    (fun v hv => ⟨v, lt_cnfNumVars hv, rfl⟩)
+
+/-- a semantic hash in the prime field `P` as the Rust computes it: weighted count with the
+normalised weights `(w, 1 - w)`, `w = var + 2` -/
+def ffHash (P : Nat) : Ptr → Nat
+  | .tru => 1 % P
+  | .fls => 0
+  | .node c v lo hi =>
+    let x := ((v + 2) * ffHash P lo + (P + 1 - (v + 2) % P) * ffHash P hi) % P
+    if c then (P + 1 - x) % P else x
+def ffNeg (P : Nat) (h : Nat) : Nat := (P + 1 - h % P) % P
+
+private def p (v : Nat) : Lit := ⟨v, true⟩
+private def n (v : Nat) : Lit := ⟨v, false⟩
+
+/-- `(x0 ∨ x1) ∧ (x2 ∨ x3)`: a component-cache hit on the residual `(x2 ∨ x3)` -/
+def ex1 : Cnf := [[p 0, p 1], [p 2, p 3]]
+/-- implication chain with a long clause -/
+def ex2 : Cnf := [[n 0, p 1], [n 1, p 2], [p 3, n 2, p 0]]
+
+/-- truth tables agree -/
+def sameTable (k : Nat) (r : Ptr) (cnf : Cnf) : Bool :=
+  (List.range (2 ^ k)).all fun i => r.eval (assignOfNat i) == cnfSat (assignOfNat i) cnf
+
+example : naiveCompile ex1 =
+    .node false 0
+      (.node false 1 .fls (.node false 2 (.node false 3 .fls .tru) .tru))
+      (.node false 2 (.node false 3 .fls .tru) .tru) := by decide
+example : sameTable 4 (naiveCompile ex2) ex2 = true := by decide
+-- the semantic store over a prime field, run on the same inputs
+example : sameTable 4
+    (compileTopdown NaiveSolver (semanticStore (ffHash 1000003) (ffNeg 1000003)) id ex1 4 []).1 ex1 = true := by
+  decide
+example : sameTable 4
+    (compileTopdown NaiveSolver (semanticStore (ffHash 1000003) (ffNeg 1000003)) id ex2 4 []).1 ex2 = true := by
+  decide
+-- a non-identity order (x3, x1, x0, x2)
+example : sameTable 4
+    (compileTopdown NaiveSolver standardStore (fun i => [3, 1, 0, 2].getD i 0) ex2 4 ()).1 ex2 = true := by
+  decide
+-- in the field with 5 elements two different functions collide and the result is WRONG:
+-- unconditional correctness of the semantic store is false
+example : sameTable 4
+    (compileTopdown NaiveSolver (semanticStore (ffHash 5) (ffNeg 5)) id ex2 4 []).1 ex2 = false := by
+  decide
+-- conditioning the compiled diagram and its negation
+example : ((TopDown.condition standardStore () (naiveCompile ex1) 1 false).1,
+           (TopDown.condition standardStore () (naiveCompile ex1).neg 1 false).1) =
+    (.node false 0 .fls (.node false 2 (.node false 3 .fls .tru) .tru),
+     .node true 0 .fls (.node false 2 (.node false 3 .fls .tru) .tru)) := by decide
+
 /-! ## axioms -/
 #print axioms topdownH_correct
 #print axioms compileTopdown_correct_store
@@ -190,5 +284,10 @@ theorem condOrig_wrong :
 #print axioms cond_correct_dnnf_standard
 #print axioms mkVar_eval
 #print axioms condOrig_wrong
+#print axioms naiveSolver_satisfies
+#print axioms naiveCompile_correct
+#print axioms naiveCompile_order_correct
+#print axioms idealHash_collisionFree
+#print axioms naiveCompile_semantic_ideal
 
 end C06
